@@ -192,7 +192,7 @@ func (g *IterGen) Session() []string {
 	n := 2 + g.pick(5)
 	for i := 0; i < n; i++ {
 		d := g.pick(4)
-		switch g.pick(11) {
+		switch g.pick(12) {
 		case 0, 1, 2:
 			stmts = append(stmts, g.Loop(d, false))
 		case 3: // several loops in one statement
@@ -225,6 +225,17 @@ func (g *IterGen) Session() []string {
 			}
 			stmts = append(stmts, fmt.Sprintf("%s = (n) -> {\nstop = false\nlim = n\ngg = () -> {\ni = 0\nwhile !stop {\nyield i * %d + lim\ni = i + 1\n}\n}\nr = []\nfor v <- %s {\nr = r + [v]\nlim = lim + 10\nif #r >= %d stop = true\n}\nr\n}", f, k, src, 2+g.pick(3)),
 				fmt.Sprintf("%s(%d)", f, g.pick(9)), fmt.Sprintf("[%s(1), %s(2)]", f, f))
+		case 10: // a loop variable named like a global or a captured variable that its own iterator expression mentions:
+			// when the iterator starts the function has no variable of that name yet, the outer one is read
+			f, b := g.fresh("f"), g.fresh("b")
+			k := 1 + g.pick(3)
+			stmts = append(stmts, "glo = 100",
+				fmt.Sprintf("%s = () -> {\nr = []\nfor glo <- fromto(glo, glo + %d) r = r + [glo]\nr + [glo]\n}", f, k+1),
+				f+"()",
+				fmt.Sprintf("%s = (p) -> {\nq = p * 2\n() -> {\nr = []\nfor q <- chain(() -> fromto(0, 1), () -> elems([q, q + %d])) r = r + [q]\nr\n}\n}", b, k),
+				fmt.Sprintf("{\nzb = %s(%d)\nzb()\n}", b, g.pick(5)),
+				fmt.Sprintf("%s = () -> {\nr = []\nfor w, glo <- fromto(glo, glo + %d), fromto(0, 5) r = r + [w + glo]\nr\n}", f+"x", k+1),
+				f+"x()")
 		default: // early return from nested loops in a function, then the same loops again
 			f := g.fresh("f")
 			stmts = append(stmts, f+" = (n) -> {\nfor i <- "+g.Iter(d)+" {\nfor j <- fromto(0, 4) {\nif i * j == n return [i, j]\n}\n}\n}",
